@@ -86,6 +86,18 @@ impl Wake for ParkWaker {
     }
 }
 
+/// The waker handed to polled futures: like `Waker::from(Arc<ParkWaker>)`, except that cloning it is a point at which the noise plan
+/// may inject a delay (the crate clones the caller's waker in the middle of its own state changes; a user's waker may be slow to clone)
+fn park_waker(pw: &Arc<ParkWaker>) -> Waker {
+    use std::task::{RawWaker, RawWakerVTable};
+    unsafe fn w_clone(p: *const ()) -> RawWaker { crate::noise::user_point(); Arc::increment_strong_count(p as *const ParkWaker); RawWaker::new(p, &VTABLE) }
+    unsafe fn w_wake(p: *const ()) { let a = Arc::from_raw(p as *const ParkWaker); Wake::wake_by_ref(&a); }
+    unsafe fn w_wake_by_ref(p: *const ()) { let a = std::mem::ManuallyDrop::new(Arc::from_raw(p as *const ParkWaker)); Wake::wake_by_ref(&*a); }
+    unsafe fn w_drop(p: *const ()) { std::mem::drop(Arc::from_raw(p as *const ParkWaker)); }
+    static VTABLE: RawWakerVTable = RawWakerVTable::new(w_clone, w_wake, w_wake_by_ref, w_drop);
+    unsafe { Waker::from_raw(RawWaker::new(Arc::into_raw(Arc::clone(pw)) as *const (), &VTABLE)) }
+}
+
 thread_local! {
     /// Number of times block_on on this thread returned Pending from a poll (i.e. had to park)
     pub static PARKS: Cell<u64> = const { Cell::new(0) };
@@ -105,13 +117,13 @@ pub fn block_on_with<F: Future + ?Sized>(mut fut: Pin<&mut F>, mut on_pending: i
     let mut n   = 0u32;
     loop {
         {
-            let waker   = Waker::from(Arc::clone(&pw));
+            let waker   = park_waker(&pw);
             let mut cx  = Context::from_waker(&waker);
             if let Poll::Ready(v) = fut.as_mut().poll(&mut cx) { return v; }
         }
         if changing {
             pw = fresh();
-            let waker   = Waker::from(Arc::clone(&pw));
+            let waker   = park_waker(&pw);
             let mut cx  = Context::from_waker(&waker);
             if let Poll::Ready(v) = fut.as_mut().poll(&mut cx) { return v; }
         }
